@@ -154,7 +154,7 @@ DeadInert ==
   (phase = "run" /\ st.status = "err") => ~Ref.ok
 
 ExportInv == (Export /\ phase = "run" /\ st.status \notin {"run", "none"} /\ tab = CHOOSE t \in Tables : TRUE)
-               => PrintT(<<"REPLAY", ToJson([i \in 1..Len(prog) |-> <<prog[i].k, prog[i].n>>])>>)
+               => PrintT("REPLAY|" \o ToJson([i \in 1..Len(prog) |-> <<prog[i].k, prog[i].n>>]))
 
 TablesQuick == {<<0, 0>>, <<1, 2>>, <<2, 0>>}
 TablesAll == {<<a, b>> : a \in 0..2, b \in 0..2}
